@@ -19,12 +19,12 @@ def apply(F):
         ensures /*@C03 ~C01*/ r.ser() == Self::k_pk_of(sk.ser());
 '''.rstrip().rstrip(';'))
     F.contract(T, r'fn derive_keypair\b', ret='r', clauses='''
-        ensures /*@C03 C02*/ (r.0.ser(), r.1.ser()) == Self::k_derive(ikm@),
+        ensures /*@C03 C02 ~C01*/ (r.0.ser(), r.1.ser()) == Self::k_derive(ikm@),
                 /*@C03*/ r.1.ser() == Self::k_pk_of(r.0.ser())
 ''')
     F.contract(T, r'fn gen_keypair<R: CryptoRng \+ RngCore>', ret='r', clauses=f'''
         ensures
-            /*@C03 C02 C18*/ (r.0.ser(), r.1.ser()) == Self::k_derive(rng_stream::<R>(old(csprng)).take({NSK} as int)),
+            /*@C03 C02 C18 ~C01*/ (r.0.ser(), r.1.ser()) == Self::k_derive(rng_stream::<R>(old(csprng)).take({NSK} as int)),
             /*@C03*/ r.1.ser() == Self::k_pk_of(r.0.ser()),
             /*@C18*/ rng_stream::<R>(final(csprng)) == rng_stream::<R>(old(csprng)).skip({NSK} as int),
 ''')
